@@ -66,7 +66,17 @@ def run(ctx):
     ctx.cov["binding_selftest"].update(st)
     if not all(st.values()):
         raise vlib.NoVerdict("binding self-test failed: %s" % st)
-    ctx.cov["traces_validated_against_impl"] = n
+    # the running system: a sequential client against three real server processes - every acknowledgement and every
+    # definite refusal ("exists", "not found") has to be true of the item at that moment, through whichever node
+    import clusfam
+    lines, nbad = clusfam.real_server_kinds(ctx, ["durable"], {"DuplicateInsertAcked", "AbsentItemAcked", "SpuriousExists", "SpuriousNotFound",
+                                                              "AckedLostOnRestart", "GhostAfterRestart"}, 1 if ctx.tier == "quick" else 3)
+    nw = sum(1 for x in lines if '"ev":"wack"' in x)
+    ctx.log("real servers: %d write outcomes checked: %d failed checks" % (nw, nbad))
+    if nw == 0:
+        raise vlib.NoVerdict("no write outcome was obtained from the real servers")
+    ctx.cov["real_server_write_outcomes"] = nw
+    ctx.cov["traces_validated_against_impl"] = n + 1
     ctx.assumptions += ["one real single-replica raft group on an in-memory Badger; multi-replica behaviour of the log is C05",
                         "the scripted remote owner fails batch items whose id ends in an odd byte"]
     return "model_checking"
